@@ -520,18 +520,32 @@ pub fn check_pruned(m1: &Automaton, m2: &Automaton) {
     // same language, any length: initial states bisimilar; every kept state is reachable in m2
     let (dist, off) = union_moore(m1, m2);
     check(!dist[m1.initial_state().id()][off + m2.initial_state().id()], 51);
-    // kept states are exactly the reachable ones, in the same order: the k-th reachable old state is new state k
-    let mut k = 0;
+    // kept states are exactly the reachable ones (no particular numbering is demanded): every reachable old state has an
+    // equivalent new state with the same finality, and every new state is equivalent to some reachable old state
+    let n2 = m2.num_states();
     let mut s = 0;
     while s < n1 {
         if reach[s] {
-            if k < m2.num_states() {
-                check(!dist[s][off + k], 52);
-                check(m1.state(s).is_final() == m2.state(k).is_final(), 53);
+            let mut found = false;
+            let mut k = 0;
+            while k < n2 {
+                found = found | (!dist[s][off + k] & (m1.state(s).is_final() == m2.state(k).is_final()));
+                k += 1;
             }
-            k += 1;
+            check(found, 52);
         }
         s += 1;
+    }
+    let mut k = 0;
+    while k < n2 {
+        let mut found = false;
+        let mut s = 0;
+        while s < n1 {
+            found = found | (reach[s] & !dist[s][off + k]);
+            s += 1;
+        }
+        check(found, 53);
+        k += 1;
     }
 }
 
@@ -563,6 +577,37 @@ pub extern "C" fn vh_c14_built() {
         (Ok(m1), Ok(mut m2)) => {
             if what == 0 {
                 check_structure(&m1, x, y);
+            } else if what == 5 {
+                // char_set_next on the symbolic set [min(x,y), max(x,y)]: Ok gives the common successor of all its
+                // members, Err exactly when the set meets two classes of the state
+                let (lo, hi) = if x <= y { (x, y) } else { (y, x) };
+                let set = CharSet::range(lo, hi);
+                let z = any_in(lo, hi);
+                let mut s = 0;
+                while s < m1.num_states() {
+                    let st = m1.state(s);
+                    let mut inside_one = false;
+                    let mut disjoint_all = true;
+                    for r in st.char_ranges() {
+                        inside_one = inside_one | r.covers(&set);
+                        disjoint_all = disjoint_all & ((hi < r.pick()) | r.is_before(lo));
+                    }
+                    match m1.char_set_next(st, &set) {
+                        Ok(t) => {
+                            check(inside_one | disjoint_all, 66);
+                            check(m1.next(st, z).id() == t.id(), 67);
+                        }
+                        Err(e) => {
+                            check(!(inside_one | disjoint_all), 68);
+                            check(e == Error::AmbiguousCharSet, 69);
+                        }
+                    }
+                    // str_next = fold of next
+                    let t1 = m1.next(st, x);
+                    let t2 = m1.next(t1, y);
+                    check(m1.str_next(st, &SmtString::from(&[x, y][..])).id() == t2.id(), 70);
+                    s += 1;
+                }
             } else if what == 1 {
                 m2.remove_unreachable_states();
                 check_pruned(&m1, &m2);
